@@ -61,6 +61,8 @@ impl Rewrite<MetaVariable> {
     let rewritten = if let Some(joiner) = &self.join_by {
       let mut ret = vec![];
       let mut edits = edits.into_iter();
+      // a rewriter's fix can expand before the rewritten nodes, skip such edits
+      let mut edits = edits.skip_while(|e| e.position < start);
       if let Some(first) = edits.next() {
         let mut pos = first.position - start + first.deleted_length;
         ret.extend(first.inserted_text);
@@ -132,7 +134,13 @@ fn make_edit<D: Doc>(
   let mut new_content = vec![];
   let mut start = 0;
   for edit in edits {
-    let pos = edit.position - offset;
+    // a rewriter's fix can expand out of the rewritten nodes, skip such edits
+    let Some(pos) = edit.position.checked_sub(offset) else {
+      continue;
+    };
+    if pos + edit.deleted_length > old_content.len() {
+      continue;
+    }
     // skip overlapping edits
     if start > pos {
       continue;
